@@ -2,24 +2,20 @@ package main
 
 import (
 	"fmt"
-	"os"
-	"runtime/pprof"
 	"testing"
-	"time"
 )
 
-func TestDebugC09(t *testing.T) {
-	go func() { time.Sleep(45 * time.Second); pprof.StopCPUProfile(); fmt.Println("TIMEOUT terms", termSeq, "feas", curExec.feasQueries, "acts", curExec.actSeq); os.Exit(3) }()
-	f, _ := os.Create("/tmp/c09.prof")
-	pprof.StartCPUProfile(f)
+func TestDebugC14(t *testing.T) {
 	w, _ := LoadWorld()
 	ex := w.NewExec()
-	installEqContracts(ex)
+	ex.abstractFns["stripFragment"] = true
+	ex.abstractFns["stripScheme"] = true
 	st := newState()
-	T := w.Type("*Object")
-	iv, _, _ := ex.symItemOfType(T, "x")
-	t0 := time.Now()
-	res := ex.Call(st, w.Func("ItemsEqual"), []Value{iv, iv}, nil).(*Term)
-	fmt.Println("done", time.Since(t0), termSeq, len(res.String()), "feas", ex.feasQueries, "acts", ex.actSeq)
-	pprof.StopCPUProfile()
+	a, b, cs := Var("a", SStr), Var("b", SStr), Var("cs", SBool)
+	ua, ub := App("urlOf", urlSort, a), App("urlOf", urlSort, b)
+	ex.mkQuery(w, ua, QueryModel{}, "a")
+	ex.mkQuery(w, ub, QueryModel{}, "b")
+	rab := ex.Call(st, w.Func("irisEqual"), []Value{a, b, cs}, nil).(*Term)
+	fmt.Println("RAB:", rab)
+	fmt.Println("panics", len(ex.panics), "notes", ex.notes)
 }
